@@ -47,6 +47,9 @@ func runC07(x *mc.X) {
 
 	w := world.New(world.Opt{})
 	defer w.Close()
+	// "two": every second exchange goes through a second transport over the same store (nothing a transport
+	// remembers outside the store may matter)
+	w.Alternate = mc.Pick(x, "transports", []string{"one", "two"}) == "two"
 	type ent = c07Ent
 	var ents []*ent
 	store := func(url string, vary string, hdr ...string) {
